@@ -92,6 +92,9 @@ def run_task(task):
             A = out.chars; m = len(A)
             if prop == 'C05':
                 ex.oblige(not unclosed, 'unclosed-accepted', 'an unclosed block comment must be reported, not returned as Ok')
+            if prop == 'C05' or (prop == 'C04' and not unclosed):
+                # (C04: positions computed on the stripped text are positions in the original file only if every
+                #  code character keeps its byte offset and the total byte length is unchanged)
                 k = 0
                 for i in range(n):
                     if com[i]:
@@ -150,7 +153,9 @@ def native_check(nat, text, prop):
         ok = len(out) == len(exp) and all(o == e or o == a for o, e, a in zip(out, exp, alt))
         return (not ok), got, 'Ok ' + bytes(exp).hex()
     else:
-        if not got.startswith('Err'): return False, got, '(not an error path)'
+        if not got.startswith('Err'):
+            if unclosed: return False, got, '(unclosed comment accepted: reported under C05)'
+            return native_check(nat, text, 'C05')
         _, s, t, fid, cat = got.split(' ')
         if s == '-': return True, got, 'a primary label'
         s = int(s); t = int(t)
@@ -168,6 +173,7 @@ def role_of(v, text, prop):
         if v['kind'] == 'unclosed-accepted': return {'function': 'preprocess', 'kind': 'unclosed-accepted', 'class': 'ends-with-star' if text.endswith('*') else 'open-at-eof'}
         if unclosed is False and '**/' in text: return {'function': 'preprocess', 'kind': v['kind'], 'class': 'closer-after-star-run'}
         return {'function': 'preprocess', 'kind': v['kind'], 'class': 'other'}
+    if v['kind'] in ('length', 'transparent'): return {'function': 'preprocess', 'kind': v['kind'], 'class': 'offsets-shifted'}
     return {'function': 'preprocess', 'kind': v['kind'], 'class': 'unclosed-label'}
 
 
